@@ -193,9 +193,10 @@ def matmul(
     right: Tensor,
     constraint: Optional[str] = "to_output_scale",
 ) -> Tensor:
-    left_size = left.shape[-2]
+    # torch.matmul also accepts 1-D operands: the missing dimension has size 1
+    left_size = left.shape[-2] if left.ndim > 1 else 1
     inner_size = left.shape[-1]
-    right_size = right.shape[-1]
+    right_size = right.shape[-1] if right.ndim > 1 else 1
 
     output_scale = inner_size**-0.5
     left_grad_scale = right_size**-0.5
